@@ -264,7 +264,13 @@ func makeUmemo(twoU, n1 int, t []int) []map[ukey]float64 {
 	for A_2i := range A[2] {
 		Asum := 0.0
 		r2Low := maxint(0, A_2i.n1-t[0])
-		r2High := (A_2i.twoU - A_2i.n1*(t[0]-A_2i.n1)) / N_2
+		// Largest r2 with r2*N_2 <= twoU - n1*(t[0]-n1). The bound is
+		// negative for keys below the attainable minimum; Go's integer
+		// division truncates toward zero, so floor it explicitly.
+		r2High := -1
+		if bound := A_2i.twoU - A_2i.n1*(t[0]-A_2i.n1); bound >= 0 {
+			r2High = bound / N_2
+		}
 		for r2 := r2Low; r2 <= r2High; r2++ {
 			Asum += mathx.Choose(t[0], A_2i.n1-r2) *
 				mathx.Choose(t[1], r2)
